@@ -260,6 +260,8 @@ theorem c17_subst_annotated (σ : List (String × Ty)) (t : Ty) (anns : List Ann
     substTy σ (.annotated t anns) = .annotated (substTy σ t) anns := by simp only [substTy]
 theorem c17_subst_tupleLit (σ : List (String × Ty)) (ts : List Ty) :
     substTy σ (.tupleLit ts) = .tupleLit (substTys σ ts) := by simp only [substTy]
+theorem c17_subst_cls (σ : List (String × Ty)) (n : String) (ts : List Ty) :
+    substTy σ (.cls n ts) = .cls n (substTys σ ts) := by simp only [substTy]
 
 /-- one-level flattening of union members -/
 def c17_flat (ts : List Ty) : List Ty := ts.flatMap fun t => match t with | .union us => us | t => [t]
@@ -304,6 +306,7 @@ def c17_normalTy : Ty → Bool
   | .union ts => c17_normalTys ts && decide (2 ≤ ts.length) && ts.all (fun t => !c17_isUnion t) && c17_distinct ts
   | .annotated t _ => c17_normalTy t
   | .tupleLit ts => c17_normalTys ts
+  | .cls _ ts => c17_normalTys ts
   | _ => true
 def c17_normalTys : List Ty → Bool
   | [] => true
@@ -320,6 +323,7 @@ def c17_fresh (σ : List (String × Ty)) : Ty → Bool
   | .union ts => c17_freshs σ ts
   | .annotated t _ => c17_fresh σ t
   | .tupleLit ts => c17_freshs σ ts
+  | .cls _ ts => c17_freshs σ ts
   | _ => true
 def c17_freshs (σ : List (String × Ty)) : List Ty → Bool
   | [] => true
@@ -336,6 +340,7 @@ def c17_noVars : Ty → Bool
   | .union ts => c17_noVarss ts
   | .annotated t _ => c17_noVars t
   | .tupleLit ts => c17_noVarss ts
+  | .cls _ ts => c17_noVarss ts
   | _ => true
 def c17_noVarss : List Ty → Bool
   | [] => true
@@ -350,6 +355,7 @@ def c17_unionFree : Ty → Bool
   | .mapping _ as => c17_unionFrees as
   | .annotated t _ => c17_unionFree t
   | .tupleLit ts => c17_unionFrees ts
+  | .cls _ ts => c17_unionFrees ts
   | _ => true
 def c17_unionFrees : List Ty → Bool
   | [] => true
@@ -412,7 +418,9 @@ theorem c17_subst_fresh (σ : List (String × Ty)) : ∀ t : Ty, c17_normalTy t 
   | .enum _, _, _ => by simp only [substTy]
   | .sub _ _, _, _ => by simp only [substTy]
   | .structLit _ _, _, _ => by simp only [substTy]
-  | .cls _ _, _, _ => by simp only [substTy]
+  | .cls nm ts, hn, hf => by
+    simp only [c17_normalTy] at hn; simp only [c17_fresh] at hf
+    rw [c17_subst_cls, c17_substs_fresh σ ts hn hf]
   | .pattern _, _, _ => by simp only [substTy]
   | .ndarray, _, _ => by simp only [substTy]
   | .forwardRef _, _, _ => by simp only [substTy]
@@ -441,7 +449,7 @@ theorem c17_fresh_nil : ∀ t : Ty, c17_fresh [] t = true
   | .enum _ => by simp only [c17_fresh]
   | .sub _ _ => by simp only [c17_fresh]
   | .structLit _ _ => by simp only [c17_fresh]
-  | .cls _ _ => by simp only [c17_fresh]
+  | .cls nm ts => by simp only [c17_fresh, c17_freshs_nil ts]
   | .pattern _ => by simp only [c17_fresh]
   | .ndarray => by simp only [c17_fresh]
   | .forwardRef _ => by simp only [c17_fresh]
@@ -467,7 +475,7 @@ theorem c17_fresh_of_noVars (σ : List (String × Ty)) : ∀ t : Ty, c17_noVars 
   | .enum _, _ => by simp only [c17_fresh]
   | .sub _ _, _ => by simp only [c17_fresh]
   | .structLit _ _, _ => by simp only [c17_fresh]
-  | .cls _ _, _ => by simp only [c17_fresh]
+  | .cls nm ts, h => by simp only [c17_noVars] at h; simp only [c17_fresh, c17_freshs_of_noVars σ ts h]
   | .pattern _, _ => by simp only [c17_fresh]
   | .ndarray, _ => by simp only [c17_fresh]
   | .forwardRef _, _ => by simp only [c17_fresh]
@@ -497,7 +505,7 @@ theorem c17_normal_of_unionFree : ∀ t : Ty, c17_unionFree t = true → c17_nor
   | .enum _, _ => by simp only [c17_normalTy]
   | .sub _ _, _ => by simp only [c17_normalTy]
   | .structLit _ _, _ => by simp only [c17_normalTy]
-  | .cls _ _, _ => by simp only [c17_normalTy]
+  | .cls nm ts, h => by simp only [c17_unionFree] at h; simp only [c17_normalTy, c17_normals_of_unionFree ts h]
   | .pattern _, _ => by simp only [c17_normalTy]
   | .ndarray, _ => by simp only [c17_normalTy]
   | .forwardRef _, _ => by simp only [c17_normalTy]
@@ -558,7 +566,9 @@ theorem c17_subst_comp (σ₁ σ₂ : List (String × Ty)) : ∀ t : Ty, c17_uni
   | .enum _, _ => by simp only [substTy]
   | .sub _ _, _ => by simp only [substTy]
   | .structLit _ _, _ => by simp only [substTy]
-  | .cls _ _, _ => by simp only [substTy]
+  | .cls nm ts, h => by
+    simp only [c17_unionFree] at h
+    rw [c17_subst_cls, c17_subst_cls, c17_subst_cls, c17_substs_comp σ₁ σ₂ ts h]
   | .pattern _, _ => by simp only [substTy]
   | .ndarray, _ => by simp only [substTy]
   | .forwardRef _, _ => by simp only [substTy]
